@@ -45,7 +45,7 @@ def run_harness(exe, cases, workdir, tag, timeout=600):
         # which line: count the responses the harness produced for this case
         produced = blocks[k][1:] if k < len(blocks) else []
         nresp = len([l for l in produced if l.split(" ")[0] in ("res", "ans", "obs", "endst")])
-        cmds = [l for l in bad[1:] if l.split(" ")[0] in ("new", "copy", "op", "qry", "obs", "stall")]
+        cmds = [l for l in bad[1:] if l.split(" ")[0] in ("new", "copy", "twin", "op", "qry", "obs", "stall")]
         line = cmds[nresp] if nresp < len(cmds) else "(unknown)"
         how = "timeout" if rc == 124 else ("harness-error" if rc == 3 else "crash rc=%d %s" % (rc, (err or "").strip()[-200:]))
         if rc == 3:
